@@ -25,25 +25,36 @@ def thresholds():
 
 
 class Fam:
+    """one family; written as several unit files of at most MAXMOD modules (small units keep goto binaries and - for a failing
+    obligation - CBMC's counterexample trace small: trace building is superlinear in the size of the static data of the unit)"""
+    MAXMOD = 5
+
     def __init__(self, name, opts=""):
         self.name = name
-        self.lines = ["# C04 generated family %s (tools/gen_c04.py, seed %s)" % (name, os.environ.get("VERIF_SEED", "0"))]
-        if opts:
-            self.lines.append("#@ unit " + opts)
+        self.opts = opts
+        self.mods = []
         self.n = 0
 
     def module(self, name, body, entries, expects=()):
         self.n += 1
+        lines = []
         for e in entries:
-            self.lines.append("#@ entry %s.%s" % (name, e))
+            lines.append("#@ entry %s.%s" % (name, e))
         for e in expects:
-            self.lines.append("#@ expect %s.%s" % (name, e))
-        self.lines.append("%s: module" % name)
-        self.lines += body
-        self.lines.append("  endmodule")
+            lines.append("#@ expect %s.%s" % (name, e))
+        lines.append("%s: module" % name)
+        lines += body
+        lines.append("  endmodule")
+        self.mods.append(lines)
 
-    def text(self):
-        return "\n".join(self.lines) + "\n"
+    def write(self, outdir):
+        for k in range(0, len(self.mods), self.MAXMOD):
+            lines = ["# C04 generated family %s part %d (tools/gen_c04.py, seed %s)" % (self.name, k // self.MAXMOD, os.environ.get("VERIF_SEED", "0"))]
+            if self.opts:
+                lines.append("#@ unit " + self.opts)
+            for m in self.mods[k:k + self.MAXMOD]:
+                lines += m
+            open(os.path.join(outdir, "%s%d.mir" % (self.name, k // self.MAXMOD)), "w").write("\n".join(lines) + "\n")
 
 
 def chain_body(n, regs=("r", "a", "b")):
@@ -77,7 +88,7 @@ def fam_thresholds(rnd, tier):
 
 
 def fam_chains(rnd, tier):
-    f = Fam("chains", "steps=300 depth=3")
+    f = Fam("chains", "steps=400 depth=3 regs=128")
     k1, k2, k3 = rnd.randint(1, 99), rnd.randint(100, 999), rnd.randint(1000, 9999)
     fa = ["a: func i64, i64:x, i64:y", "  local i64:t, i64:u", "  call pb, b, t, x, y", "  call pb, b, u, y, t", "  xor t, t, u", "  add t, t, %d" % k1, "  ret t", "  endfunc"]
     fb = ["b: func i64, i64:x, i64:y", "  local i64:t", "  inline pc, c, t, x", "  xor t, t, y", "  call pc, c, t, t", "  ret t", "  endfunc"]
@@ -121,7 +132,7 @@ def fam_alloca(rnd, tier):
                                       "  alloca w, n", "  mov i64:(w), t", "  call pg, g, u, n, t", "  or t, u, i64:(q)", "  xor t, t, i64:(w)", "  ret t", "  endfunc"], ["f n=set8,13"], ["f calls=0"])
     # callee whose alloca sits in a loop executed twice
     g_loop = ["pg: proto i64, i64:n, i64:v", "g: func i64, i64:n, i64:v", "  local i64:p, i64:r, i64:i, i64:prev", "  mov i, 0", "  mov r, 0", "  mov prev, 0", "L_loop:", "  alloca p, n", "  xor v, v, i",
-              "  lsh v, v, 1", "  mov i64:(p), v", "  bf L_first, prev", "  xor r, r, i64:(prev)", "L_first:", "  mov prev, p", "  add i, i, 1", "  blt L_loop, i, 2", "  or r, r, i64:(p)", "  ret r", "  endfunc"]
+              "  lsh v, v, 1", "  mov i64:(p), v", "  bf L_first, i", "  xor r, r, i64:(prev)", "L_first:", "  mov prev, p", "  add i, i, 1", "  blt L_loop, i, 2", "  or r, r, i64:(p)", "  ret r", "  endfunc"]
     f.module("al_loop", g_loop + ["f: func i64, i64:n, i64:x, i64:y", "  local i64:t, i64:q, i64:u", "  alloca q, 8", "  mov i64:(q), y", "  call pg, g, t, n, x", "  call pg, g, u, n, t",
                                   "  xor t, t, u", "  xor t, t, i64:(q)", "  ret t", "  endfunc"], ["f n=set8,13"], ["f calls=0"])
     # nested: a (alloca) calls b (alloca); both inlined into f which has its own; sequential second call reuses the space
@@ -301,7 +312,7 @@ def fam_lower(rnd, tier):
             "f: func i64, i64:a, i64:b", "  local i64:t, i64:u", "  call pg, g, t, a, b", "  subos u, a, 1", "  ubo L2", "  or t, t, 1", "L2:", "  ret t", "  endfunc",
             "m1: func i64, i64:a, i64:b", "  local i64:r, i64:t", "  addo t, b, b", "  mulo r, a, 1", "  bo L3", "  ret r", "L3:", "  ret 1", "  endfunc",
             "m2: func i64, i64:a, i64:b", "  local i64:r, i64:t", "  addos t, b, b", "  mulos r, a, 1", "  bno L4", "  ret 0", "L4:", "  ret 1", "  endfunc"]
-    f.module("lo_ovf", body, ["f a=set0,0x7fffffffffffffff,0x100000000", "m1 b=set1,0x4000000000000000", "m2 b=set1,0x40000000"], ["f calls=0"])
+    f.module("lo_ovf", body, ["f a=set0,0x7fffffffffffffff,0x100000000", "m1 a=set5,-3 b=set1,0x4000000000000000", "m2 a=set5,-3 b=set1,0x40000000"], ["f calls=0"])
     return f
 
 
@@ -312,7 +323,7 @@ def main():
     n = 0
     for i, fam in enumerate((fam_thresholds, fam_chains, fam_alloca, fam_blk, fam_types, fam_control, fam_lower)):
         f = fam(random.Random(seed * 1000 + i), tier)
-        open(os.path.join(outdir, f.name + ".mir"), "w").write(f.text())
+        f.write(outdir)
         n += f.n
     print("gen_c04: %d modules" % n)
 
